@@ -14,8 +14,12 @@ from concurrent.futures import ProcessPoolExecutor, as_completed
 from . import rng
 
 ROOT = os.path.dirname(os.path.dirname(os.path.abspath(__file__)))
-EVIDENCE_DIR = os.path.join(ROOT, 'evidence')
-REPLAY_DIR = os.path.join(ROOT, 'replays')
+# (the sensitivity self-test redirects these so that a mutated tree never
+# overwrites the evidence of the real one)
+EVIDENCE_DIR = os.environ.get('SIMDASSH_EVIDENCE_DIR') or \
+    os.path.join(ROOT, 'evidence')
+REPLAY_DIR = os.environ.get('SIMDASSH_REPLAY_DIR') or \
+    os.path.join(ROOT, 'replays')
 KNOWN = os.path.join(ROOT, 'known_findings.json')
 PY = sys.executable
 
@@ -30,7 +34,9 @@ def _alarm(signum, frame):
 
 def _tree_sha():
     try:
-        out = subprocess.run(['git', '-C', '/repo', 'rev-parse', 'HEAD'],
+        out = subprocess.run(['git', '-C',
+                              os.environ.get('SIMDASSH_REPO', '/repo'),
+                              'rev-parse', 'HEAD'],
                              capture_output=True, text=True, timeout=20)
         return out.stdout.strip()
     except Exception:
